@@ -32,29 +32,29 @@ type MustCall struct {
 }
 
 type Contract struct {
-	Key      string // canonical function name
-	Pkg      *types.Package
-	Props    []string
-	Requires []*Clause
-	Ensures  []*Clause
-	Modifies []Expr
-	ModAll   bool
-	HasMod   bool
-	Loops    map[int][]*Clause
-	LoopOver map[int]string
-	Sites    []*SiteSpec
-	Lets     []letDef
-	Trusted  bool
-	Inline   bool
-	Pure     bool
-	NoPanic  bool
-	MayPanic *Clause
-	File     string
-	Line     int
-	Findings []*FindingSplit
-	Witness  []*Clause
-	Uses     []string
-	RepInvs  []*Clause
+	Key         string // canonical function name
+	Pkg         *types.Package
+	Props       []string
+	Requires    []*Clause
+	Ensures     []*Clause
+	Modifies    []Expr
+	ModAll      bool
+	HasMod      bool
+	Loops       map[int][]*Clause
+	LoopOver    map[int]string
+	Sites       []*SiteSpec
+	Lets        []letDef
+	Trusted     bool
+	Inline      bool
+	Pure        bool
+	NoPanic     bool
+	MayPanic    *Clause
+	File        string
+	Line        int
+	Findings    []*FindingSplit
+	Witness     []*Clause
+	Uses        []string
+	RepInvs     []*Clause
 	FrozenClock bool
 	Ghosts      []string
 	Except      []Expr // modifies * except ...
@@ -73,10 +73,11 @@ type FindingSplit struct {
 
 // AfterHook: `after <pattern> set ghost = expr` — ghost state update right after a matching call returned.
 type AfterHook struct {
-	Pattern string
-	Ghost   string
-	Assume  bool
-	Expr    *Clause
+	Pattern  string
+	Ghost    string
+	Assume   bool
+	UseLemma string
+	Expr     *Clause
 }
 
 type letDef struct {
@@ -340,6 +341,11 @@ func (cs *Contracts) parseFile(path string, pkg *types.Package) error {
 		case "ghost":
 			cur.Ghosts = append(cur.Ghosts, strings.FieldsFunc(rest, func(r rune) bool { return r == ',' || r == ' ' })...)
 		case "after":
+			if j := strings.Index(rest, " use "); j >= 0 && strings.Index(rest, " set ") < 0 && strings.Index(rest, " assume ") < 0 {
+				// after <pattern> use <lemma>: instantiate a (separately proved) lemma in the state after the call
+				cur.Afters = append(cur.Afters, &AfterHook{Pattern: strings.TrimSpace(rest[:j]), UseLemma: strings.TrimSpace(rest[j+5:])})
+				break
+			}
 			if j := strings.Index(rest, " assume "); j >= 0 && (strings.Index(rest, " set ") < 0 || j < strings.Index(rest, " set ")) {
 				// after <pattern> assume [label] expr — an assumption about an external call, listed in the evidence;
 				// old(e) in expr is e right before the call
